@@ -1,6 +1,7 @@
 package checks
 
 import (
+	config_util "github.com/prometheus/common/config"
 	"io"
 
 	"github.com/sirupsen/logrus"
@@ -23,4 +24,21 @@ func h1Quiet() *logrus.Logger {
 	l.SetOutput(io.Discard)
 	l.SetLevel(logrus.PanicLevel)
 	return l
+}
+
+func secretsOf(h config_util.HTTPClientConfig) string {
+	s := ""
+	if h.BasicAuth != nil {
+		s += "password=" + string(h.BasicAuth.Password) + " "
+	}
+	if h.Authorization != nil {
+		s += "credentials=" + string(h.Authorization.Credentials) + " "
+	}
+	if h.BearerToken != "" {
+		s += "bearer_token=" + string(h.BearerToken) + " "
+	}
+	if h.OAuth2 != nil {
+		s += "client_secret=" + string(h.OAuth2.ClientSecret) + " "
+	}
+	return s
 }
